@@ -323,6 +323,9 @@ func runCacheRound(rd *cacheRound) (cacheAPI, cacheRoundOut) {
 func genCacheRound(r rng, prop string) *cacheRound {
 	rd := &cacheRound{}
 	rd.spec = cacheSpec{Flavor: pick(r, cacheFlavors), Ctor: "New", OptMask: 1 | 2 | 8}
+	if prop == "C12" {
+		rd.spec.Flavor = pick(r, cacheFlavors[:2]) // the twins: Cache and CacheOf[string,any]
+	}
 	rd.defExp = pick(r, []time.Duration{cache.NoExpiration, 0, 15, 30, time.Hour})
 	rd.spec.DefExp = rd.defExp
 	if rd.defExp < 1 {
